@@ -57,7 +57,10 @@ def decompress():
 
             def on_next(i):
                 try:
-                    data = decompressor.decompress(i)
+                    # a zstandard decompressobj refuses any call once the
+                    # frame is complete, even with no data: do not hand
+                    # empty chunks to it.
+                    data = decompressor.decompress(i) if len(i) > 0 else b''
                     observer.on_next(data)
                 except Exception as e:
                     observer.on_error(e)
